@@ -394,6 +394,7 @@ func (e *Engine) inline(st *state, fr *frame, in ssa.CallInstruction, fn *ssa.Fu
 		return one(st, e.dynResult(&Val{Op: "func", Aux: fn}, args, id, fn.Signature.Results()))
 	}
 	sub := st.clone()
+	sub.up = &evChain{evs: st.events, up: st.up}
 	sub.events = nil
 	base := len(st.conds)
 	nf := &frame{fn: fn, env: map[ssa.Value]*Val{}, args: args, free: free, depth: fr.depth + 1,
@@ -705,7 +706,7 @@ func (e *Engine) model(st *state, fr *frame, in ssa.CallInstruction, fn *ssa.Fun
 
 	switch name {
 	case "encoding/binary.Write":
-		w, ord, data := stripIface(args[0]), orderOf(args[1]), stripIface(args[2])
+		w, ord, data := embeddedBuffer(stripIface(args[0])), orderOf(args[1]), stripIface(args[2])
 		if !isBufferType(w.Type) {
 			break
 		}
@@ -854,7 +855,7 @@ func (e *Engine) model(st *state, fr *frame, in ssa.CallInstruction, fn *ssa.Fun
 			}
 		}
 	case "encoding/binary.Read":
-		r, ord, data := stripIface(args[0]), orderOf(args[1]), stripIface(args[2])
+		r, ord, data := embeddedBuffer(stripIface(args[0])), orderOf(args[1]), stripIface(args[2])
 		if !isBufferType(r.Type) {
 			break
 		}
@@ -916,7 +917,7 @@ func (e *Engine) model(st *state, fr *frame, in ssa.CallInstruction, fn *ssa.Fun
 		markExhausted(st2, r)
 		return []callRes{{st: st, val: mkNil(errT)}, {st: st2, val: nonnil(fmt.Sprintf("binary.Read#%d", ev2.ID))}}, true
 	case "io.ReadFull":
-		r, b := stripIface(args[0]), args[1]
+		r, b := embeddedBuffer(stripIface(args[0])), args[1]
 		if !isBufferType(r.Type) {
 			break
 		}
@@ -2209,4 +2210,39 @@ func (e *Engine) overlayCopy(st *state, dst, src *Val) bool {
 	sc := e.contentOf(st, src)
 	st.content[base.Key()] = &Val{Op: "overlay", Args: []*Val{old, lo, sc}, Type: base.Type}
 	return true
+}
+
+// embeddedBuffer: a small struct value that embeds a *bytes.Buffer and is handed to the library as an io.Reader /
+// io.Writer through the promoted methods is, for those calls, the buffer it embeds – provided the struct's own type
+// declares no Read/Write/… of its own that would be picked instead.
+func embeddedBuffer(v *Val) *Val {
+	if v == nil || v.Type == nil || v.Op != "struct" {
+		return v
+	}
+	st, ok := v.Type.Underlying().(*types.Struct)
+	if !ok || st.NumFields() != len(v.Args) {
+		return v
+	}
+	idx := -1
+	for i := 0; i < st.NumFields(); i++ {
+		if st.Field(i).Embedded() && isBufferType(st.Field(i).Type()) {
+			if idx >= 0 {
+				return v
+			}
+			idx = i
+		}
+	}
+	if idx < 0 || v.Args[idx] == nil {
+		return v
+	}
+	for _, m := range []string{"Read", "Write", "WriteString", "ReadByte", "WriteByte", "Len"} {
+		obj, path, _ := types.LookupFieldOrMethod(v.Type, true, nil, m)
+		if obj == nil {
+			continue
+		}
+		if len(path) < 2 || path[0] != idx {
+			return v // declared by the struct itself, or promoted from somewhere else
+		}
+	}
+	return v.Args[idx]
 }
